@@ -416,6 +416,7 @@ TREE = [
     ("p.m.C._", "Function"), ("p.m.C.__", "Function"), ("p.m.C.___", "Function"), ("p.m.C._a_", "Function"),
     ("p.m.C.a__", "Function"), ("p.m.C.__a_", "Function"), ("p.m.C.__main__", "Function"),
     ("p.m._C.g", "Function"), ("p._m.B", "Class"), ("p._m.B.h", "Function"), ("p.__main__.run", "Function"),
+    ("p._m.C", "Class"), ("p._m.C.f", "Function"),   # same last names as p.m.C / p.m.C.f, other qualified names
 ]
 KIND_NONE = {"p.m.k"}
 
@@ -480,7 +481,14 @@ def privacy_eval(rules: Sequence[Tuple[str, str]], queries: Sequence[Tuple[str, 
     """one rule list + one query history on a fresh real System; pure (runs in worker processes)"""
     from pydoctor import model
     rule_strings = [f"{lv}:{pat}" for lv, pat in rules]
-    system, objs = build_system(rule_strings, via_args)
+    try:
+        with contextlib.redirect_stderr(io.StringIO()):
+            system, objs = build_system(rule_strings, via_args)
+    except SystemExit:
+        # the option parser refuses the rule list: nothing is documented at all, the property is silent
+        line = " ".join(["privacy run"] + [f"R {LCODE[lv]} {enc(pat)}" for lv, pat in rules])
+        return {"line": line, "impl": "SystemExit", "answers": ["SystemExit"], "fails": [], "applies": False,
+                "rules": rule_strings, "queries": [list(q) for q in queries]}
     parsed = [(lv.name, pat) for lv, pat in system.options.privacy]
     answers = []
     fails: List[Tuple[str, Any, str]] = []
